@@ -92,6 +92,8 @@ func checkC12(c *Check) {
 	c.rendezvousChannels("C12.2 error-seen-before-next-transition", "errorCh")
 	c.fsmContracts("C12.2 fsm-effects")
 	c.notificationDecode("C12.1 received-notification-decoded")
+	c.messageResults("C12.1 received-notification-type")
+	c.disableEnablePairing("C12.5 recorded-state-reset-when-damped")
 	c.specConstants("C12.1 spec-constants", "NOTIF_CODE_CEASE")
 	c.dampPeerRule("C12.1 damp-predicate")
 	he := p.Fn("peer.handleError")
